@@ -613,6 +613,12 @@ impl Check for C20Check {
                     hash_seed: Some(lay.hash_seed),
                     real_rayon: true,
                     io_seed: lay.io_seed,
+                    clock_seed: if (lay.argv_seed >> 17) % 4 == 0 {
+                        stats.fault("clock_jumps_forward_in_the_program");
+                        Some(lay.argv_seed >> 20 | 1)
+                    } else {
+                        None
+                    },
                     stale_output: match (lay.argv_seed >> 13) % 8 {
                         0 | 1 => {
                             stats.fault("output_path_holds_longer_earlier_output");
